@@ -1,6 +1,6 @@
 (* C09: streaming is transparent -- results independent of I/O fragmentation and faults. *)
 From Coq Require Import List NArith Lia Bool.
-From Rpgp Require Import Base.Octets Base.Res Sym.Cfb Sym.Seipd1Machine Sym.Seipd1MachineProofs Frame.Framing Frame.BodyReader Frame.BodyReaderProofs Aead.Seipd2 Aead.Seipd2Machine Aead.Seipd2MachineProofs.
+From Rpgp Require Import Base.Octets Base.Res Sym.Cfb Sym.Seipd1Machine Sym.Seipd1MachineProofs Frame.Framing Frame.BodyReader Frame.BodyReaderProofs Aead.Seipd2 Aead.Seipd2Machine Aead.Seipd2MachineProofs Io.Emitter Io.EmitterProofs Sym.Seipd1EncMachine Sym.Seipd1EncMachineProofs.
 From Rpgp Require Import Io.Fill Io.FillProofs Armor.Base64 Armor.LineWriter Armor.LineWriterProofs Armor.B64Reader Armor.B64ReaderProofs.
 Import ListNotations.
 Open Scope N_scope.
@@ -75,3 +75,20 @@ Theorem C09_v2_decryptor_request_independent :
       a_run open c key iv info req1 ct = a_run open c key iv info req2 ct.
 Proof. exact a_request_independent. Qed.
 Print Assumptions C09_v2_decryptor_request_independent.
+
+(* writers' side: a staged producer read through read() -- the shape of the stream encryptors and of the
+   message builder's generators -- delivers the concatenation of its stages whatever sizes are asked for *)
+Theorem C09_staged_producer_is_concatenation :
+  forall (R : Type) (advance : R -> option (bytes * R)) sf (req : N -> N) fuel i p r k,
+    stages R advance sf r = Some k ->
+    (length p + length (whole R advance sf r) + k + 2 <= fuel)%nat ->
+    e_drive R advance sf req fuel i p r = (p ++ whole R advance sf r, EClean).
+Proof. exact drive_whole. Qed.
+Print Assumptions C09_staged_producer_is_concatenation.
+
+Theorem C09_v1_encryptor_request_independent :
+  forall E bs sha1, 1 <= bs -> (forall x, lenN (E x) = bs) ->
+    forall (req1 req2 : N -> N) prefix data,
+      enc_run E bs sha1 req1 prefix data = enc_run E bs sha1 req2 prefix data.
+Proof. exact enc_request_independent. Qed.
+Print Assumptions C09_v1_encryptor_request_independent.
